@@ -1,6 +1,7 @@
 import ast
 import keyword
 import re
+import unicodedata
 from collections.abc import Mapping, MutableMapping
 from typing import Optional, Union
 
@@ -91,11 +92,20 @@ def sanitize_variable_name(
         aliases: The sanitized names already handed out (mapped back to the
             original names), so that different names never share an alias.
     """
-    if template == "{}" and (name.isidentifier() or keyword.iskeyword(name)):
+    # Python's parser NFKC-normalises identifiers, so only names that survive
+    # that normalisation can be used as they are.
+    if (
+        template == "{}"
+        and (name.isidentifier() or keyword.iskeyword(name))
+        and unicodedata.normalize("NFKC", name) == name
+    ):
         return name
 
-    # Compute recognisable basename
-    base_name = "".join([char if re.match(r"\w", char) else "_" for char in name])
+    # Compute recognisable basename (ASCII word characters only, so that the
+    # new name is a valid identifier that comes back unchanged from the parser)
+    base_name = "".join(
+        [char if re.match(r"\w", char, re.ASCII) else "_" for char in name]
+    )
     if not base_name or base_name[0].isdigit():
         base_name = "_" + base_name
 
